@@ -1,4 +1,5 @@
 import OmplModel.Proofs.SpaceInterpExamples
+import OmplModel.Generated.RwSets
 /-!
 C07 — property theorems for `StateSpace::interpolate` (model: `Model/SpaceInterp.lean`).
 
@@ -349,5 +350,26 @@ theorem interp_inbounds_all (sp : Space ℝ) (a b : St ℝ) (t : ℝ)
 example : inBounds allSp (interpolate allSp allA allB (1 / 3)) = true :=
   interp_inbounds_all _ _ _ _ allA_wt allB_wt allA_inB allB_inB allA_unit allB_unit
     allA_klein allB_klein (by norm_num) (by norm_num)
+
+/-! ## aliasing (implementation-level clause; generated input)
+
+`Generated/RwSets.lean` is regenerated on every run by `extract/rwsets.py` from the `interpolate` bodies
+of the current tree: one ordered list of input-field reads / output-field writes per control-flow path.
+The obligation below is closed by kernel evaluation over that table: on every path no input field is
+read after the same-named output field was written (`safe`), and the 3-cell memory micro-model
+(`Alias.exec`: output distinct / == from / == to) writes the same values in all three modes
+(`modesAgree`).  A body that writes a field and later re-reads it from an input breaks this theorem.
+(The harness additionally runs every interpolate in the three modes and compares bits.) -/
+
+/-- [AF, generated] every extracted `interpolate` path is alias-safe and its three alias modes agree -/
+theorem interp_alias_safe :
+    OmplModel.Generated.RwSets.bodies.all (fun b => Alias.safe b && Alias.modesAgree b) = true := by
+  decide
+
+/-- non-vacuity: the table is not empty and the predicate does reject a write-before-read body
+(`out.value = diff*t; out.value += from.value`, the shape of mutant M5) -/
+example : OmplModel.Generated.RwSets.bodies.length ≥ 7 := by decide
+example : Alias.safe [.rd .to 1, .rd .from 1, .wr 1, .rd .out 1, .rd .from 1, .wr 1] = false := by decide
+example : Alias.modesAgree [.rd .to 1, .rd .from 1, .wr 1, .rd .out 1, .rd .from 1, .wr 1] = false := by decide
 
 end OmplModel.Props.C07
